@@ -14,8 +14,11 @@ CHECKS = {
         text='Seeded search over worker interleavings (baton-passed threads, six scheduling policies, stalls, SQLite '
              'busy time-outs in virtual time) of the real Evaluator/Job/SqliteDataStore code; every run is compared '
              'with a serial twin run of the same code, with the objective call log and with a read-mode view of the '
-             'database at the moment evaluate() returns. Sampling of schedules, not proof; interleavings are quantified '
-             'at objective-call and SQL-statement granularity, which is exactly the granularity the property states.',
+             'database at the moment evaluate() returns; whole NSGA-II / eps-MOEA / swarm / sweep runs with 2-4 workers are compared '
+             'with the same run executed serially; an abort family checks the designs other workers finished when one design '
+             'propagates an exception. Sampling of schedules, not proof; interleavings are quantified at objective-call and '
+             'SQL-statement granularity (what the property states) and, in a sixth of the runs, at source-line granularity '
+             '(sys.monitoring LINE events inside the library). Found defect F5 on the pinned tree (fixed in /repo).',
         note='joblib replaced by a stub with the same dispatch/memory/exception semantics; pre-emption only at yield '
              'points; busy handler modelled (5 s virtual) over the real libsqlite3; objective failures off.',
         technique=TECH + ': seeded schedule search (random/PCT/rr/starve) + stall and busy-timeout injection, '
@@ -49,7 +52,8 @@ CHECKS['C10'] = dict(
          'individuals, repeated ids) and complete runs of the eight synchronising algorithms against a real SQLite file; '
          'a reference dict id -> last synchronised fields, built from the attributes and not through artap\'s own '
          'to_dict, is compared bit-exactly through ProblemViewDataStore and raw row counts after the history and at '
-         'seeded intermediate points. Sampling of histories, not proof.',
+         'seeded intermediate points; a simulated foreign process may hold the database lock across a synchronisation, and the '
+         'file may first hold another problem and be opened with mode="rewrite". Sampling of histories, not proof.',
     note='single writer (C07 covers concurrent writers); float bounds/costs (O1); NaN not generated; real libsqlite3 on tmpfs.',
     technique=TECH + ': seeded operation histories against the real store, reference-model oracle through a read-mode view')
 CHECKS['C11'] = dict(
